@@ -2,6 +2,7 @@
 samples.  Simulated: the random stream (so every chain state is known), the
 continuing chains across draws, and how the sample stream is chunked."""
 import copy
+import math
 
 from qsim import plan as P
 from qsim.core import Run, close
@@ -26,7 +27,7 @@ ASSUMPTIONS = [
     "tolerance 1e-9 relative to max(1, |value|, mean^2)",
 ]
 
-OBS = ["Z", "Zabs", "X", "Y", "NN", "NNp", "SWAP", "2Z+X", "Z-0.5", "negZ", "user", "const"]
+OBS = ["Z", "Zabs", "X", "Y", "NN", "NNp", "SWAP", "2Z+X", "Z-0.5", "negZ", "user", "const", "view", "view+Z", "1e7+Z"]
 
 
 def generate(seed, tier):
@@ -77,7 +78,7 @@ def generate(seed, tier):
             op["init_seed"] = P.s64(r)
             op["overwrite"] = r.random() < 0.5
         cheap = ns >= 1000
-        pool = ["Z", "Zabs", "NN", "user", "const", "Z-0.5", "negZ"] if cheap else OBS
+        pool = ["Z", "Zabs", "NN", "user", "const", "Z-0.5", "negZ", "view", "1e7+Z"] if cheap else OBS
         if op["op"] == "sys_stats":
             k = r.randint(1, 4)
             op["obs"] = r.sample(pool, min(k, len(pool)))
@@ -110,6 +111,21 @@ def make_obs(name, nv, counter):
         return SigmaZ() - 0.5
     if name == "negZ":
         return -SigmaZ()
+    if name == "1e7+Z":
+        return 1e7 + SigmaZ()  # an estimator sitting on a large constant
+    if name in ("view", "view+Z"):
+
+        class FirstSite(ObservableBase):
+            """a legal user observable whose apply() returns a VIEW of the sample block"""
+
+            def __init__(self):
+                self.name = "FirstSite"
+                self.symbol = "F"
+
+            def apply(self, nn_state, samples):
+                return samples[:, 0]
+
+        return FirstSite() if name == "view" else FirstSite() + SigmaZ()
 
     class User(ObservableBase):
         def __init__(self):
@@ -158,7 +174,11 @@ def execute(plan):
 
     def cmp_stats(got, x, what, **detail):
         mean, var, se, n = ref_stats(x)
-        scale = max(1.0, abs(mean) ** 2, abs(var) if var == var else 0.0)
+        # what a numerically stable merge achieves: relative 1e-9 on the variance plus the rounding of
+        # block means of magnitude |mean| (eps * |mean| * spread); NOT mean^2-scaled, so that an estimator
+        # on a large constant offset is still judged sharply
+        v0 = abs(var) if var == var else 0.0
+        scale = max(1.0, v0) + 1e-4 * abs(mean) * max(1.0, math.sqrt(v0))
         ok = True
         if got.get("num_samples") != n:
             run.violate("13-count", f"{what}: reported num_samples {got.get('num_samples')}, {n} samples were drawn", **detail)
@@ -239,7 +259,7 @@ def execute(plan):
                 ok = rn == ln and close(mean, rm, 1e-9)
                 if not ok:
                     run.violate("13-merge", f"merge of chunks {op['chunks']}: mean/count ({mean!r},{ln}) vs one-pass ({rm!r},{rn})", chunks=op["chunks"])
-                elif (var != var) != (rv != rv) or (rv == rv and abs(var - rv) > 1e-9 * max(1.0, abs(rv)) * (1e-3 * sc if sc > 1 else 1.0)):
+                elif (var != var) != (rv != rv) or (rv == rv and abs(var - rv) > 1e-9 * (max(1.0, abs(rv)) + 1e-4 * abs(rm) * max(1.0, math.sqrt(abs(rv))))):
                     run.violate("13-merge", f"merge of chunks {op['chunks']}: variance {var!r} vs one-pass {rv!r}", chunks=op["chunks"], min_chunk=min(op["chunks"]))
                 if len(op["chunks"]) >= 3:
                     big_ops += 1
